@@ -139,7 +139,7 @@ def setVals : List (Nat × Int) → List Int → List (Nat × Int)
 
 /-- `sort()` -/
 def sort (s : LState) : Option (Res LState) :=
-  match sortVals (fun a b => decide (a < b)) s.vals with
+  match sortVals ltInt s.vals with
   | some vs => some { st := { s with nodes := setVals s.nodes vs } }
   | none => none
 
